@@ -409,7 +409,7 @@ func c14World(t *testing.T, r *simcore.Run) any {
 		for k := 0; k < 8 && r.Violation() == nil; k++ {
 			ncook := 1 + tp.Intn(8, "ncook")
 			// (cookies of foreign servers need not be a multiple of four bytes long: the encoder pads)
-			ck := make([]byte, []int{124, 100, 104, 64, 101, 102, 103, 61, 17}[tp.Intn(9, "nck")])
+			ck := make([]byte, []int{124, 100, 104, 64, 101, 102, 103, 61, 17, 24, 20, 21, 28, 32}[tp.Intn(14, "nck")])
 			padded := (len(ck) + 3) &^ 3
 			var cookies [][]byte
 			for i := 0; i < ncook; i++ {
